@@ -139,6 +139,38 @@ example : (endBlock (updateParamsHandler false 7 { store := 1, cacheParams := 0,
 example : (endBlock (createPriceHandler false false 2 5 { store := 1, cacheParams := 0, cacheDirty := false, cacheMsgs := [], updatedFeeders := [] })).store = 38 := by
   decide
 
+/-! ## order-carrying results: map order that leaves the function
+
+`Gen.orderCarryingResults` lists every slice that is built inside a map range, with its fate; the ones
+with fate `returned` hand the map's iteration order to their callers (`Gen.orderCarryingConsumers`).
+Each is paired here with the reason no consumer can observe the order. -/
+
+/-- order-preserving removals commute … -/
+theorem C08_splice_removals_commute (l : List Nat) (a b : Nat) :
+    spliceRemove (spliceRemove l a) b = spliceRemove (spliceRemove l b) a := by
+  unfold spliceRemove; exact List.erase_comm a b
+
+/-- … so removing the `sealed` feeders from a validator's nonce list gives the same list (same bytes in the
+store) whatever order SealRound's map range produced them in -/
+theorem C08_sealed_consumer_order_independent {s₁ s₂ : List Nat} (h : s₁.Perm s₂) (l : List Nat) :
+    removeSealed spliceRemove s₁ l = removeSealed spliceRemove s₂ l :=
+  foldl_perm (fun l a b => C08_splice_removals_commute l a b) h l
+
+/-- swap-with-last removals do not commute: from [1,4,2,3], removing 1 then 4 leaves [3,2], removing 4
+then 1 leaves [2,3] — this is why `sliceRemovalShapes` must stay `splice` for the nonce list -/
+theorem C08_swap_removals_do_not_commute :
+    removeSealed swapRemove [1, 4] [1, 4, 2, 3] = [3, 2] ∧ removeSealed swapRemove [4, 1] [1, 4, 2, 3] = [2, 3] := by
+  decide
+
+def orderReview : List (String × String) := [
+  ("x/avs/types/types.go:Difference:diffMap|different|returned-after-sort", "sorted before it leaves / before any order-sensitive use (shape C / C′)"),
+  ("x/evm/keeper/precompiles.go:Keeper.GetAvailablePrecompileAddrs:k.precompiles|addresses|returned-after-sort", "sorted before it leaves / before any order-sensitive use (shape C / C′)"),
+  ("x/feedistribution/keeper/allocation.go:Keeper.AllocateTokensToStakers:avsAssets|globalStakerAddressList|sorted-locally", "sorted before it leaves / before any order-sensitive use (shape C / C′)"),
+  ("x/oracle/keeper/aggregator/aggregator.go:reportPrice.aggregate:r.prices|tmp|local", "local: only its elements are summed / compared (shape A)"),
+  ("x/oracle/keeper/aggregator/context.go:AggregatorContext.GetValidators:agc.validatorsPower|validators|returned", "returned in map order; every consumer loops over it doing one store write per validator under that validator's own key (shape B: C08_keywise_consumer_order_independent)"),
+  ("x/oracle/keeper/aggregator/context.go:AggregatorContext.SealRound:agc.rounds|failed|returned", "returned in map order; the EndBlocker calls GrowRoundID once per element, a write under that token's own key (shape B)"),
+  ("x/oracle/keeper/aggregator/context.go:AggregatorContext.SealRound:agc.rounds|sealed|returned", "returned in map order; the EndBlocker removes, per element, that feeder's item from every validator's nonce list with an order-preserving splice: such removals commute (C08_sealed_consumer_order_independent)")]
+
 /-! ## loop-carried state of the map ranges
 
 `Gen.mapRangeCarriedState` lists, for every `range` over a map, the variables declared outside the loop
